@@ -1,6 +1,8 @@
 package main
 
 import (
+	"runtime/debug"
+	"runtime/pprof"
 	"encoding/json"
 	"flag"
 	"fmt"
@@ -161,6 +163,8 @@ func cmdCheck(args []string) int {
 	noReplay := fs.Bool("noreplay", false, "skip native replay")
 	verbose := fs.Bool("v", false, "verbose")
 	fs.BoolVar(&debugEngine, "debug", false, "crash on engine errors")
+	fs.BoolVar(&progress, "progress", false, "print every path")
+	cpuprof := fs.String("cpuprofile", "", "write cpu profile")
 	fs.BoolVar(&debugSolver, "debugsolver", false, "print solver errors")
 	if len(args) < 2 {
 		usage()
@@ -169,6 +173,11 @@ func cmdCheck(args []string) int {
 	_ = fs.Parse(args[2:])
 	if tier != "quick" && tier != "thorough" {
 		usage()
+	}
+	if *cpuprof != "" {
+		f, _ := os.Create(*cpuprof)
+		pprof.StartCPUProfile(f)
+		defer pprof.StopCPUProfile()
 	}
 	verifDir := envOr("VERIF_DIR", "/verif")
 	repoDir := envOr("VERIF_REPO", "/repo")
@@ -190,6 +199,9 @@ func cmdCheck(args []string) int {
 		return 2
 	}
 	eng.tier = tier
+	// the loaded program is a large, static heap: collect rarely
+	debug.SetGCPercent(1000)
+	debug.SetMemoryLimit(40 << 30)
 	if tier == "thorough" {
 		eng.assertMs = 60000
 		eng.branchMs = 5000
